@@ -35,7 +35,7 @@ def gen_cases(tier: str, seed: int) -> list[dict]:
     rng = common.rng_for(seed, 'C09-cases')
     thorough = tier == 'thorough'
     max_d = 9 if thorough else 5
-    max_c = 12 if thorough else 6
+    max_c = 12 if thorough else 7
     cases: list[dict] = []
 
     def anc_states(n):
@@ -53,7 +53,8 @@ def gen_cases(tier: str, seed: int) -> list[dict]:
                 else:
                     sts = [[rng.randrange(2) for _ in range(d)] for _ in range(8 if thorough else 3)]
                 for ds in sts:
-                    deep = (d <= (4 if thorough else 3) and c <= (8 if thorough else 5) and rng.random() < (0.5 if thorough else 0.3))
+                    deep = (d <= (4 if thorough else 3) and c <= (8 if thorough else 7) and
+                            (rng.random() < (0.5 if thorough else 0.3) or (c >= 6 and d in (2, 3) and r)))   # c >= 6: the middle block is repeated >= 3 times (seeded change C09-m8)
                     cases.append({'stream': 'chain', 'spec': {'kind': 'chain', 'dist': d, 'refocus': r}, 'cycles': c,
                                   'ds': ds, 'as': anc_states(max(d - 1, 0)), 'deep': deep})
     # B. every contiguous data-terminated sub-chain of the three layouts (forward and reversed listing)
